@@ -354,7 +354,149 @@ pub fn run(a: &Args) {
             }
         }
     }
+    // nesting far beyond the skippers' depth budget of 64, through every recursive position
+    // (struct field, list / set element, map value, map key): the skip must answer with an error -
+    // accepting it means unbounded recursion, and a long enough input overflows the stack
+    for kind in DEEP_KINDS {
+        for prot in SAFE {
+            // the builder is validated first: the same construction 3 and 32 deep must be skipped
+            // completely by the sync skipper (otherwise "rejected" below would mean nothing)
+            for d in [3usize, 32] {
+                let (b, top) = deep_bytes(prot, kind, d);
+                let m = sync_skip(prot, &b, top);
+                if m.out != Out::Ok {
+                    eprintln!("MACHINERY: deep_bytes({}, {}, {}) is not a valid encoding: {:?}", prot.name(), kind, d, m.out);
+                    std::process::exit(2);
+                }
+            }
+            for d in [65usize, 66, 100, 5000, 200_000] {
+                if col.next_case("deep-nesting") {
+                    col.nontrivial += 1;
+                    deep_case(&mut col, prot, kind, d);
+                }
+            }
+        }
+    }
     col.finish(&a.out);
+}
+
+const DEEP_KINDS: [&str; 5] = ["struct", "list", "set", "map-value", "map-key"];
+
+/// encoding of `d` nested containers of one kind (built iteratively: no recursion in the harness)
+fn deep_bytes(prot: Prot, kind: &str, d: usize) -> (Vec<u8>, T) {
+    let le = prot == Prot::BinaryLe;
+    let i32b = |n: i32| if le { n.to_le_bytes() } else { n.to_be_bytes() };
+    let i16b = |n: i16| if le { n.to_le_bytes() } else { n.to_be_bytes() };
+    let (mut open, mut inner, mut close): (Vec<u8>, Vec<u8>, Vec<u8>) = (vec![], vec![], vec![]);
+    let top;
+    if prot == Prot::Compact {
+        match kind {
+            "struct" => {
+                open = vec![0x1c];
+                inner = vec![0x00];
+                close = vec![0x00];
+                top = T::Struct;
+            }
+            "list" => {
+                open = vec![0x19];
+                inner = vec![0x03];
+                top = T::List;
+            }
+            "set" => {
+                open = vec![0x1a];
+                inner = vec![0x03];
+                top = T::Set;
+            }
+            "map-value" => {
+                open = vec![0x01, 0x3b, 0x00];
+                inner = vec![0x00];
+                top = T::Map;
+            }
+            _ => {
+                open = vec![0x01, 0xb3];
+                inner = vec![0x00];
+                close = vec![0x00];
+                top = T::Map;
+            }
+        }
+    } else {
+        match kind {
+            "struct" => {
+                open.push(12);
+                open.extend_from_slice(&i16b(1));
+                inner = vec![0];
+                close = vec![0];
+                top = T::Struct;
+            }
+            "list" | "set" => {
+                let code = if kind == "list" { 15 } else { 14 };
+                open.push(code);
+                open.extend_from_slice(&i32b(1));
+                inner.push(3);
+                inner.extend_from_slice(&i32b(0));
+                top = if kind == "list" { T::List } else { T::Set };
+            }
+            "map-value" => {
+                open.extend_from_slice(&[3, 13]);
+                open.extend_from_slice(&i32b(1));
+                open.push(0);
+                inner.extend_from_slice(&[3, 3]);
+                inner.extend_from_slice(&i32b(0));
+                top = T::Map;
+            }
+            _ => {
+                open.extend_from_slice(&[13, 3]);
+                open.extend_from_slice(&i32b(1));
+                inner.extend_from_slice(&[3, 3]);
+                inner.extend_from_slice(&i32b(0));
+                close = vec![0];
+                top = T::Map;
+            }
+        }
+    }
+    // the top-level value is the outermost container: its own header is what `skip(top)` expects
+    // after the caller has read nothing, so the first `open` loses its leading type information
+    // where the encoding of a bare value has none (list/set/map/struct bodies start directly)
+    let mut out = Vec::with_capacity(open.len() * d + inner.len() + close.len() * d);
+    for i in 0..d {
+        if i == 0 {
+            // bare value: struct body starts with the field header; list/set/map start with their header
+            match (prot == Prot::Compact, kind) {
+                (_, "struct") => out.extend_from_slice(&open),
+                (true, "list") | (true, "set") => out.extend_from_slice(&open),
+                (true, _) => out.extend_from_slice(&open),
+                (false, _) => out.extend_from_slice(&open),
+            }
+        } else {
+            out.extend_from_slice(&open);
+        }
+    }
+    out.extend_from_slice(&inner);
+    for _ in 0..d {
+        out.extend_from_slice(&close);
+    }
+    (out, top)
+}
+
+fn deep_case(col: &mut Collector, prot: Prot, kind: &str, d: usize) {
+    let (bytes, top) = deep_bytes(prot, kind, d);
+    let case = || json!({"kind": "deep", "prot": prot.name(), "nest": kind, "d": d});
+    for (name, m) in [("skip", sync_skip(prot, &bytes, top)), ("async-skip", async_run(prot, &bytes, top, true, BinApi::Bytes, Mode::All))] {
+        col.evaluations += 1;
+        let head = format!("C09|{}|{}", prot.name(), name);
+        match &m.out {
+            Out::Ok => {
+                col.outcome("deep-accepted");
+                col.fail(format!("{}|deep-nesting-accepted:{}", head, kind), case(), format!("{} nested {} deep was skipped without an error (depth budget 64)", kind, d));
+            }
+            Out::Err(_) => col.outcome("err"),
+            Out::Panic(p) => col.fail(format!("{}|{}", head, p), case(), p.clone()),
+            Out::Exec(x) => col.fail(format!("{}|executor:{}", head, x), case(), x.clone()),
+        }
+        if m.alloc_total > budget(bytes.len()) {
+            col.fail(format!("{}|alloc-out-of-proportion", head), case(), format!("{} bytes for {} input bytes", m.alloc_total, bytes.len()));
+        }
+    }
 }
 
 pub fn replay(case: &serde_json::Value) -> Vec<(String, String)> {
@@ -363,6 +505,10 @@ pub fn replay(case: &serde_json::Value) -> Vec<(String, String)> {
     let mut col = Collector::new("C09", &a);
     col.index = 1;
     let kind = case["kind"].as_str().unwrap_or("trunc").to_string();
+    if kind == "deep" {
+        deep_case(&mut col, Prot::from_name(case["prot"].as_str().unwrap()), case["nest"].as_str().unwrap(), case["d"].as_u64().unwrap() as usize);
+        return col.failures.iter().map(|(s, g)| (s.clone(), g.detail.clone())).collect();
+    }
     let f = Fault {
         prot: Prot::from_name(case["prot"].as_str().unwrap()),
         t: serde_json::from_value(case["t"].clone()).unwrap(),
